@@ -1221,8 +1221,8 @@ def check_replace_on_put(ck, cm: CacheModel, rule="C06.R4"):
     fa = FA(ck, cm.insert)
     ins = [s for s in fa.stmts(ast.Assign) if any(isinstance(t, ast.Subscript) and self_attr(t.value, cm.map) for t in s.targets)]
     ins = fa.one(ins, "insertion into the resident map")
-    k = A.norm([t for t in ins.targets if isinstance(t, ast.Subscript)][0].slice)
-    ev = [c for c in fa.calls(cm.evict.name) if cm.is_self_call(c, cm.evict) and c.args and A.norm(c.args[0]) == k]
+    k = _xn(fa, [t for t in ins.targets if isinstance(t, ast.Subscript)][0].slice, ins)
+    ev = [c for c in fa.calls(cm.evict.name) if cm.is_self_call(c, cm.evict) and c.args and _xn(fa, c.args[0], c) == k]
     removed = set(fa.nodes(ins)) | set(fa.nodes_all(ev))
     p = fa.cfg.path(fa.cfg.entry, fa.cfg.exit, removed)
     ck.paths_enumerated += 1
